@@ -1,5 +1,7 @@
 import SwhVerif.Model.Toposort
 import SwhVerif.Lemmas.Toposort
+import SwhVerif.Model.ToposortGen
+import SwhVerif.Lemmas.ToposortGen
 /-!
 # C20 — `toposort` yields every revision exactly once, after all of its parents
 
@@ -9,6 +11,11 @@ parent relation — the yielded sequence is a permutation of the log, and every 
 strictly after a revision carrying each of its parent ids (repeated parent ids allowed).  Because
 the model's `while` loop runs on fuel, `toposort_perm` also says the fuel is never exhausted on
 such logs.
+
+The second half of the file lifts both statements from the FIFO model to *every* work-list
+discipline (`run_perm`, `run_parents_first`, `run_never_stuck`, over `Swh.ToposortGen.isRun`), so a
+harness can validate an implementation's yield order with the checker instead of comparing it with
+the FIFO sequence; `fifo_isRun` shows the FIFO model is one such run.
 
 `#eval` sanity checks (same sequences as `list(toposort(...))` in Python):
 ```
@@ -60,5 +67,139 @@ example : (toposort [⟨5, [3, 3, 4]⟩, ⟨4, [1]⟩, ⟨3, [1, 2]⟩, ⟨2, []
 
 /-- the hypotheses are needed: with a cycle the cyclic part is never yielded -/
 example : (toposort [⟨1, [2]⟩, ⟨2, [1]⟩, ⟨0, []⟩]).map Rev.id = [0] := by decide
+
+/-! ## any work-list discipline
+
+`Swh.ToposortGen` abstracts the FIFO queue into a bag: a step may pop *any* enqueued revision and
+put the newly ready children *anywhere*.  `isRun log order` is the executable checker that replays
+a yield sequence against that abstract algorithm (the bag is a `List Rev` compared on whole
+revisions, one occurrence consumed per yield by `List.erase`; at the end the bag must be empty), and
+`isRun_iff_scheduled` says it accepts exactly the yield sequences of complete scheduled runs.  The
+theorems below are the generalisation of `toposort_perm` / `toposort_parents_first` to every such
+run; the FIFO model is one of them (`fifo_isRun`), and so is a stack (`lifo_isRun`). -/
+
+open Swh.ToposortGen
+
+/-- **Each revision exactly once, whatever the discipline**: a complete run of the abstract
+    algorithm is a permutation of the log. -/
+theorem run_perm {log order : List Rev} (h : WfLog log) (hr : isRun log order = true) :
+    order.Perm log := by
+  obtain ⟨rank, hrank⟩ := h.acyclic
+  exact (run_spec h.ids_nodup h.parents_closed rank hrank hr).1
+
+/-- **Parents first, whatever the discipline.** -/
+theorem run_parents_first {log order : List Rev} (h : WfLog log) (hr : isRun log order = true) :
+    ∀ (i : Nat) (r : Rev), order[i]? = some r → ∀ p ∈ r.parents,
+      ∃ j < i, ∃ q, order[j]? = some q ∧ q.id = p := by
+  intro i r hi p hp
+  obtain ⟨rank, hrank⟩ := h.acyclic
+  have hpf := (run_spec h.ids_nodup h.parents_closed rank hrank hr).2
+  rcases PFfrom.index _ _ hpf i r hi p hp with h0 | h1
+  · cases h0
+  · exact h1
+
+/-- **Progress**: in the state `s` reached after any prefix `pre` accepted by the replay (i.e. any
+    reachable state of a partial run), if some revision of the log has not been yielded yet then the
+    work bag is not empty — the algorithm cannot get stuck before it has yielded everything. -/
+theorem run_never_stuck {log pre : List Rev} {s : WState} (h : WfLog log)
+    (hp : replay (initPass log).children (init log) pre = some s)
+    (hn : ∃ r ∈ log, r ∉ pre) : s.work ≠ [] := by
+  intro hw
+  obtain ⟨rank, hrank⟩ := h.acyclic
+  obtain ⟨r, hr, hnr⟩ := hn
+  have := never_stuck h.ids_nodup h.parents_closed rank hrank hp hw
+  exact hnr (this.mem_iff.mpr hr)
+
+/-- the same, counting: an accepted prefix never has more than `|log|` elements, and while it has
+    fewer the bag is not empty -/
+theorem run_never_stuck_length {log pre : List Rev} {s : WState} (h : WfLog log)
+    (hp : replay (initPass log).children (init log) pre = some s) :
+    pre.length ≤ log.length ∧ (pre.length < log.length → s.work ≠ []) := by
+  refine ⟨(replay_init_inv h.ids_nodup hp).1.length_le, ?_⟩
+  intro hlt hw
+  obtain ⟨rank, hrank⟩ := h.acyclic
+  have := (never_stuck h.ids_nodup h.parents_closed rank hrank hp hw).length_eq
+  omega
+
+/-- what "accepted prefix" means: every yielded revision was in the bag, and its parents had all
+    been yielded -/
+theorem prefix_parents_first {log pre : List Rev} {s : WState} (h : WfLog log)
+    (hp : replay (initPass log).children (init log) pre = some s) :
+    pre.Nodup ∧ (∀ r ∈ pre, r ∈ log) ∧
+    ∀ (i : Nat) (r : Rev), pre[i]? = some r → ∀ p ∈ r.parents,
+      ∃ j < i, ∃ q, pre[j]? = some q ∧ q.id = p := by
+  obtain ⟨i1, i2⟩ := replay_init_inv h.ids_nodup hp
+  refine ⟨(List.nodup_append.mp i1.nodup).1, fun r hr => i1.sub r (by simp [hr]), ?_⟩
+  intro i r hi p hpp
+  rcases PFfrom.index _ _ i2 i r hi p hpp with h0 | h1
+  · cases h0
+  · exact h1
+
+/-- **Every partial run can be completed**: an accepted prefix extends to an accepted complete run
+    (which by `run_perm` is a permutation of the log). -/
+theorem run_extends {log pre : List Rev} {s : WState} (h : WfLog log)
+    (hp : replay (initPass log).children (init log) pre = some s) :
+    ∃ rest, isRun log (pre ++ rest) = true :=
+  ToposortGen.run_extends h.ids_nodup _ pre s hp (Nat.le_refl _)
+
+/-- **The FIFO model is one of the runs**, so `toposort_perm` and `toposort_parents_first` are
+    instances of `run_perm` and `run_parents_first`.  Only the distinctness of the ids is used
+    (`Swh.ToposortGen.fifo_isRun_of_nodup`): it bounds the number of yields, hence shows the fuel of
+    the model is not exhausted. -/
+theorem fifo_isRun (log : List Rev) (h : WfLog log) : isRun log (toposort log) = true :=
+  fifo_isRun_of_nodup log h.ids_nodup
+
+/-- a stack instead of the deque (pop the most recently pushed revision) is another run -/
+theorem lifo_isRun (log : List Rev) (h : WfLog log) :
+    isRun log (toposortBy (fun w => w.length - 1) log) = true :=
+  toposortBy_isRun_of_nodup _ (fun w hw => by
+    have := List.length_pos_iff.mpr hw
+    omega) log h.ids_nodup
+
+/-- any deterministic choice of the popped position is a run -/
+theorem toposortBy_isRun (pick : List Rev → Nat) (hpick : ∀ w, w ≠ [] → pick w < w.length)
+    (log : List Rev) (h : WfLog log) : isRun log (toposortBy pick log) = true :=
+  toposortBy_isRun_of_nodup pick hpick log h.ids_nodup
+
+/-- the checker is exact (restated from `Swh.ToposortGen`): it accepts `order` iff some schedule —
+    a choice of the popped position and of where the newly ready children go, at every step — yields
+    `order` and ends with an empty work list -/
+theorem isRun_exact (log order : List Rev) : isRun log order = true ↔ IsScheduledRun log order :=
+  isRun_iff_scheduled log order
+
+/-! ### non-vacuity of the generalisation -/
+
+/-- the FIFO order is accepted -/
+example : isRun [⟨5, [3, 3, 4]⟩, ⟨4, [1]⟩, ⟨3, [1, 2]⟩, ⟨2, []⟩, ⟨1, []⟩]
+    [⟨2, []⟩, ⟨1, []⟩, ⟨4, [1]⟩, ⟨3, [1, 2]⟩, ⟨5, [3, 3, 4]⟩] = true := by decide
+
+/-- a depth-first (stack) order `[1,4,2,3,5]`, different from the FIFO one, is accepted too -/
+example : isRun [⟨5, [3, 3, 4]⟩, ⟨4, [1]⟩, ⟨3, [1, 2]⟩, ⟨2, []⟩, ⟨1, []⟩]
+    [⟨1, []⟩, ⟨4, [1]⟩, ⟨2, []⟩, ⟨3, [1, 2]⟩, ⟨5, [3, 3, 4]⟩] = true := by decide
+
+/-- and it is the order the stack instance computes -/
+example : (toposortBy (fun w => w.length - 1)
+      [⟨5, [3, 3, 4]⟩, ⟨4, [1]⟩, ⟨3, [1, 2]⟩, ⟨2, []⟩, ⟨1, []⟩]).map Rev.id
+    = [1, 4, 2, 3, 5] := by decide
+
+/-- rejected: a child (`4`) before its parent (`1`) -/
+example : isRun [⟨5, [3, 3, 4]⟩, ⟨4, [1]⟩, ⟨3, [1, 2]⟩, ⟨2, []⟩, ⟨1, []⟩]
+    [⟨2, []⟩, ⟨4, [1]⟩, ⟨1, []⟩, ⟨3, [1, 2]⟩, ⟨5, [3, 3, 4]⟩] = false := by decide
+
+/-- rejected: a revision (`5`) missing — the bag is not empty at the end -/
+example : isRun [⟨5, [3, 3, 4]⟩, ⟨4, [1]⟩, ⟨3, [1, 2]⟩, ⟨2, []⟩, ⟨1, []⟩]
+    [⟨2, []⟩, ⟨1, []⟩, ⟨4, [1]⟩, ⟨3, [1, 2]⟩] = false := by decide
+
+/-- rejected: a revision yielded twice -/
+example : isRun [⟨5, [3, 3, 4]⟩, ⟨4, [1]⟩, ⟨3, [1, 2]⟩, ⟨2, []⟩, ⟨1, []⟩]
+    [⟨2, []⟩, ⟨1, []⟩, ⟨1, []⟩, ⟨4, [1]⟩, ⟨3, [1, 2]⟩, ⟨5, [3, 3, 4]⟩] = false := by decide
+
+/-- rejected: `5` released after only one of its two decrements from `3` would be wrong — here `5`
+    right after `4`, before `3` -/
+example : isRun [⟨5, [3, 3, 4]⟩, ⟨4, [1]⟩, ⟨3, [1, 2]⟩, ⟨2, []⟩, ⟨1, []⟩]
+    [⟨2, []⟩, ⟨1, []⟩, ⟨4, [1]⟩, ⟨5, [3, 3, 4]⟩, ⟨3, [1, 2]⟩] = false := by decide
+
+/-- rejected: same id but a different parent list is not the revision of the log -/
+example : isRun [⟨2, [1]⟩, ⟨1, []⟩] [⟨1, []⟩, ⟨2, []⟩] = false := by decide
 
 end Swh.C20
